@@ -187,6 +187,12 @@ def r3_lookup_chain(ctx: Ctx) -> None:
             par = [unparse(r.value) for b in s.body for r in ast.walk(b) if isinstance(r, ast.Return)]
             ok = own == ["self.table"] and "self.parent.get_table()" in par
     ctx.check(ok, "Scope.get_table:own-first", "a scope's own table wins, else the enclosing scope's")
+    # `if self.parent:` decides "is there an enclosing scope": scopes must not define their own truthiness
+    for ci in [ctx.repo.cls(SYMBOLS, "Scope")] + ctx.repo.subclasses(ctx.repo.cls(SYMBOLS, "Scope")):
+        for dunder in ("__len__", "__bool__"):
+            ctx.count("truthiness_checks")
+            ctx.check(dunder not in ci.methods, f"{ci.name}.{dunder}", "the parent tests `if self.parent:` in value_for/get_table treat a falsy scope as 'no parent'; "
+                      f"with {dunder} an empty enclosing scope ends the outward lookup")
     # nobody else reads the tables for lookup
     allowed = {"Scope", "Resolver", "NamedScope", "InternalScope"}
     for fn in ctx.repo.all_functions():
